@@ -262,12 +262,23 @@ struct Ctx {
     sb: Sandbox,
     rt: tokio::runtime::Runtime,
     runner: Arc<ToolRunner>,
-    app: ripd::verif_export::VerifApp,
+    /// the production router; rebuilt every 100 tasks: the server keeps every task's handle (with
+    /// its pre-allocated 16 384-slot channel, ~1 MB) for its whole life, which a worker that spawns
+    /// thousands of tasks cannot afford
+    app: std::cell::RefCell<ripd::verif_export::VerifApp>,
+    engine: Arc<ripd::SessionEngine>,
+    tasks_on_this_app: std::cell::Cell<usize>,
     cwd_mode: String,
 }
 
 fn run_task_cwd(ctx: &Ctx, p: &str) -> Outcome {
-    let router = ctx.app.router();
+    if ctx.tasks_on_this_app.get() >= 100 {
+        let _g = ctx.rt.enter();
+        *ctx.app.borrow_mut() = ripd::verif_export::VerifApp::new(ctx.engine.clone(), false);
+        ctx.tasks_on_this_app.set(0);
+    }
+    ctx.tasks_on_this_app.set(ctx.tasks_on_this_app.get() + 1);
+    let router = ctx.app.borrow().router();
     ctx.rt.block_on(async move {
         let body = json!({"tool": "bash", "args": {"command": "echo probe > probe.txt; cat a 2>/dev/null", "cwd": p}});
         let req = axum::http::Request::builder()
@@ -380,7 +391,7 @@ fn worker(opts: Opts) -> i32 {
         let _g = rt.enter();
         ripd::verif_export::VerifApp::new(engine.clone(), false)
     };
-    let ctx = Ctx { sb, rt, runner, app, cwd_mode };
+    let ctx = Ctx { sb, rt, runner, app: std::cell::RefCell::new(app), engine: engine.clone(), tasks_on_this_app: std::cell::Cell::new(0), cwd_mode };
     let paths = path_strings(&ctx.sb, report.tier());
     // the engine created root/.rip: pristine = after engine construction
     let (mut pristine_out, mut pristine_in) = observe(&ctx.sb);
@@ -529,7 +540,7 @@ fn replay(report: &Report, case: &Value) -> i32 {
         let _g = rt.enter();
         ripd::verif_export::VerifApp::new(engine.clone(), false)
     };
-    let ctx = Ctx { sb, rt, runner, app, cwd_mode };
+    let ctx = Ctx { sb, rt, runner, app: std::cell::RefCell::new(app), engine: engine.clone(), tasks_on_this_app: std::cell::Cell::new(0), cwd_mode };
     let p = case["path_template"]
         .as_str()
         .unwrap_or("")
